@@ -15,6 +15,7 @@ import GoaktVerif.Lemmas.C45.Sink
 import GoaktVerif.Lemmas.C45.Bridge
 import GoaktVerif.Lemmas.C45.FusedBridge
 import GoaktVerif.Lemmas.C45.HomogSem
+import GoaktVerif.Lemmas.C45.NetKinds
 
 namespace GoaktVerif.C45
 open GoaktVerif.Model.C45 GoaktVerif.Spec.C45
@@ -160,6 +161,52 @@ theorem semsOf_mkNet (fusion : Bool) (stages : List Stage) (input : List Val) (p
   simp only [semsOf, rawNet, midsOf_eq, FsOf, List.map_cons, List.map_append, List.map_map, List.map_nil]
   rfl
 
+theorem kindsOf_mkNet (fusion : Bool) (stages : List Stage) (input : List Val) (picks : List Pick) :
+    kindsOf ((mkNet fusion stages input).run picks) =
+      none :: (((groupsOf fusion stages).map fun g => ukind (nodeOfGroup g)) ++ [none]) := by
+  rw [kindsOf_run, mkNet_eq, kindsOf_wireAll]
+  simp only [kindsOf, rawNet, midsOf_eq, List.map_cons, List.map_append, List.map_map, List.map_nil]
+  rfl
+
+theorem ukind_nodeOfGroup (g : List Stage) (h : orderedPipeline g = true) : ukind (nodeOfGroup g) = none := by
+  match g with
+  | [] => rfl
+  | [a] =>
+    have := List.all_eq_true.mp h a (by simp)
+    cases a <;> first | rfl | simp at this
+  | a :: b :: r => rfl
+
+theorem ordered_of_mem_groups (fusion : Bool) (pre : List Stage) (h : orderedPipeline pre = true) :
+    ∀ g ∈ groupsOf fusion pre, orderedPipeline g = true := by
+  intro g hg
+  apply List.all_eq_true.mpr
+  intro st hst
+  have : st ∈ (groupsOf fusion pre).flatten := List.mem_flatten.mpr ⟨g, hg, hst⟩
+  rw [groupsOf_flatten] at this
+  exact List.all_eq_true.mp h st this
+
+theorem ordered_of_covered (stages : List Stage) (h : ∀ st ∈ stages, Stage.covered st = true) :
+    orderedPipeline stages = true := by
+  apply List.all_eq_true.mpr
+  intro st hst
+  have := h st hst
+  cases st <;> first | rfl | simp [Stage.covered] at this
+
+/-- a pipeline without the unordered ParallelMap has no unordered node, in any state of any run -/
+theorem noUnord_of_ordered (fusion : Bool) (stages : List Stage) (input : List Val) (picks : List Pick)
+    (ho : orderedPipeline stages = true) :
+    ∀ (j : Nat) nd, ((mkNet fusion stages input).run picks).nodes[j]? = some nd → isUnord nd = false := by
+  intro j nd hn
+  have hk : (kindsOf ((mkNet fusion stages input).run picks))[j]? = some (ukind nd) := by simp [kindsOf, hn]
+  rw [kindsOf_mkNet] at hk
+  rw [isUnord_eq_ukind]
+  have hmem := List.mem_of_getElem? hk
+  simp only [List.mem_cons, List.mem_append, List.mem_map, List.not_mem_nil, or_false] at hmem
+  rcases hmem with h1 | ⟨g, hg, h1⟩ | h1
+  · rw [h1]; rfl
+  · rw [← h1, ukind_nodeOfGroup g (ordered_of_mem_groups fusion stages ho g hg)]; rfl
+  · rw [h1]; rfl
+
 /-- COMPOSITION, generic in the class `P` of ideal inputs: for every covered pipeline, both fusion modes, every
     schedule — against the list semantics `sem`. -/
 theorem C45_gen (P : List Val → Prop) (fusion : Bool) (stages : List Stage) (input : List Val) (picks : List Pick)
@@ -170,6 +217,7 @@ theorem C45_gen (P : List Val → Prop) (fusion : Bool) (stages : List Stage) (i
   have hinv := run_inv P fusion stages input picks h hpar
   have hsem := semsOf_mkNet fusion stages input picks
   have hok := hinv.sink_ok (by rw [hsem]; exact hP) s hs
+    (noUnord_of_ordered fusion stages input picks (ordered_of_covered stages h))
   have hlen : ((mkNet fusion stages input).run picks).nodes.length = (groupsOf fusion stages).length + 2 := by
     have := congrArg List.length hsem
     simpa [semsOf, FsOf] using this
@@ -258,11 +306,176 @@ theorem C45_full_refuted_untyped : ¬ C45_full := by
     rw [hsem] at this
     simp [typeErr] at this
 
+
+/-! ### the unordered ParallelMap: a pipeline `pre ++ [ParallelMap]`, every schedule, as a MULTISET
+
+The stages of `pre` emit in order (everything but the unordered ParallelMap); the last stage runs its workers
+concurrently and emits results as they arrive. At every moment the sink holds a sub-multiset of the results of
+the non-failing elements; when the stream completes normally it holds a PERMUTATION of the list semantics and no
+stage fails on this input; when it fails, with an error the list semantics lists. The hook runs exactly once. -/
+
+theorem groupRuns_snoc (pre acc : List Stage) (s : Stage) (hs : s.fusable = false) :
+    groupRuns (pre ++ [s]) acc = groupRuns pre acc ++ [[s]] := by
+  induction pre generalizing acc with
+  | nil => simp [groupRuns, hs, accGroup]
+  | cons a pre ih =>
+    simp only [List.cons_append, groupRuns]
+    split
+    · exact ih (a :: acc)
+    · rw [ih []]; simp
+
+theorem groupsOf_snoc (fusion : Bool) (pre : List Stage) (s : Stage) (hs : s.fusable = false) :
+    groupsOf fusion (pre ++ [s]) = groupsOf fusion pre ++ [[s]] := by
+  cases fusion with
+  | true => simp [groupsOf, groupRuns_snoc pre [] s hs]
+  | false => simp [groupsOf]
+
+theorem midsOf_fresh' (fusion : Bool) (stages : List Stage) : ∀ nd ∈ midsOf fusion stages, FreshMid nd := by
+  cases fusion with
+  | true => exact freshMid_fuseRuns' stages []
+  | false =>
+    intro nd hnd
+    simp only [midsOf, Bool.false_eq_true, if_false, List.mem_map] at hnd
+    obtain ⟨st, _, rfl⟩ := hnd
+    exact freshMid_mkNode' st
+
+/-- the network invariant in every state of every run of ANY pipeline (typed ideal inputs) -/
+theorem run_inv' (P : List Val → Prop) (fusion : Bool) (stages : List Stage) (input : List Val) (picks : List Pick)
+    (hpar : ∀ X, P X → Homog X) :
+    GInv P input ((mkNet fusion stages input).run picks) := by
+  have hfresh := midsOf_fresh' fusion stages
+  have hraw := GInv.raw (P := P) (midsOf fusion stages) input hfresh (Or.inl hpar)
+  have hal := rawNet_allAlive (midsOf fusion stages) input hfresh
+  have hw := wireAll_inv _ hraw hal (midsOf fusion stages).length.succ.succ (by simp [rawNet])
+  rw [mkNet_eq]
+  exact hw.1.run picks
+
+/-- what the sink may have observed below `pre ++ [ParallelMap w k bad e]` -/
+def SinkOKUnordered (pre : List Stage) (w : Nat) (k : Int) (bad : Option Int) (e : Err) (input : List Val)
+    (s : SinkSt) : Prop :=
+  s.hooks ≤ 1 ∧ (s.alive = false → s.hooks = 1) ∧
+  -- at every moment: a sub-multiset of the results of the elements that do not fail
+  SubPerm s.received (okAll k bad e (sem pre input).1) ∧
+  -- normal completion: a permutation of the list semantics, and no stage fails on this input
+  (s.alive = false → s.termErr = none →
+    List.Perm s.received (sem (pre ++ [.pmap w k bad e]) input).1 ∧ (sem (pre ++ [.pmap w k bad e]) input).2 = []) ∧
+  -- failure: with an error some stage raises on this input
+  (∀ er, s.termErr = some er → er ∈ (sem (pre ++ [.pmap w k bad e]) input).2)
+
+def C45_unordered : Prop :=
+  ∀ (fusion : Bool) (pre : List Stage) (w : Nat) (k : Int) (bad : Option Int) (e : Err) (input : List Val)
+    (picks : List Pick) (s : SinkSt),
+    orderedPipeline pre = true → Homog input →
+    ((mkNet fusion (pre ++ [.pmap w k bad e]) input).run picks).sink? = some s →
+    SinkOKUnordered pre w k bad e input s
+
+theorem stageSem_pmap (w : Nat) (k : Int) (bad : Option Int) (e : Err) (vs : List Val) :
+    stageSem (.pmap w k bad e) vs = parRun k bad e vs := by
+  rw [parRun_eq_stageSem w k bad e vs]; rfl
+
+theorem C45_unordered_holds : C45_unordered := by
+  intro fusion pre w k bad e input picks s ho hin hs
+  have hcov := covered_of_ordered pre ho
+  have hfus : (Stage.pmap w k bad e).fusable = false := rfl
+  have hG := groupsOf_snoc fusion pre (.pmap w k bad e) hfus
+  have hinv := run_inv' Homog fusion (pre ++ [.pmap w k bad e]) input picks (fun _ hX => hX)
+  have hsem := semsOf_mkNet fusion (pre ++ [.pmap w k bad e]) input picks
+  have hkind := kindsOf_mkNet fusion (pre ++ [.pmap w k bad e]) input picks
+  rw [hG] at hkind
+  have hFs : FsOf fusion (pre ++ [.pmap w k bad e]) input =
+      midF (.src { rest := input }) :: (((groupsOf fusion pre).map fun g => midF (nodeOfGroup g)) ++
+        [parRun k bad e, midF (.sink defaultCfg {})]) := by
+    simp only [FsOf, hG, List.map_append, List.map_cons, List.map_nil, List.append_assoc, List.cons_append,
+      List.nil_append]
+    rfl
+  have hlen : ((mkNet fusion (pre ++ [.pmap w k bad e]) input).run picks).nodes.length =
+      (groupsOf fusion pre).length + 3 := by
+    have := congrArg List.length hsem
+    rw [hFs] at this
+    simpa [semsOf] using this
+  -- typing of all ideal link contents
+  have hP : ∀ j, Homog (idealAt (FsOf fusion (pre ++ [.pmap w k bad e]) input) input j).1 := by
+    apply idealAt_homog _ _ _ hin
+    intro F hF X hX
+    rw [hFs] at hF
+    simp only [List.mem_cons, List.mem_append, List.mem_map, List.not_mem_nil, or_false] at hF
+    rcases hF with rfl | ⟨g, hg, rfl⟩ | rfl | rfl
+    · exact hX
+    · exact group_homog g (groupsOf_good fusion pre hcov g hg) X hX
+    · rw [← stageSem_pmap w]; exact stageSem_homog _ X hX
+    · exact hX
+  -- node kinds
+  have hkget : ∀ (j : Nat) nd, ((mkNet fusion (pre ++ [.pmap w k bad e]) input).run picks).nodes[j]? = some nd →
+      (kindsOf ((mkNet fusion (pre ++ [.pmap w k bad e]) input).run picks))[j]? = some (ukind nd) := by
+    intro j nd hn; simp [kindsOf, hn]
+  have hu : ∀ (j : Nat) nd, j ≤ ((mkNet fusion (pre ++ [.pmap w k bad e]) input).run picks).nodes.length - 3 →
+      ((mkNet fusion (pre ++ [.pmap w k bad e]) input).run picks).nodes[j]? = some nd → isUnord nd = false := by
+    intro j nd hj hn
+    have hk := hkget j nd hn
+    rw [hkind, hlen] at *
+    rw [isUnord_eq_ukind]
+    cases j with
+    | zero => simp at hk; rw [← hk]; rfl
+    | succ j =>
+      have hj' : j < (groupsOf fusion pre).length := by omega
+      simp only [List.getElem?_cons_succ, List.map_append, List.append_assoc] at hk
+      rw [List.getElem?_append_left (by simpa using hj')] at hk
+      simp only [List.getElem?_map] at hk
+      cases hg : (groupsOf fusion pre)[j]? with
+      | none => rw [hg] at hk; simp at hk
+      | some g =>
+        rw [hg] at hk
+        simp only [Option.map_some, Option.some.injEq] at hk
+        rw [← hk, ukind_nodeOfGroup g (ordered_of_mem_groups fusion pre ho g (List.mem_of_getElem? hg))]; rfl
+  obtain ⟨w', st, hlastU⟩ : ∃ w' st, ((mkNet fusion (pre ++ [.pmap w k bad e]) input).run picks).nodes[
+      ((mkNet fusion (pre ++ [.pmap w k bad e]) input).run picks).nodes.length - 2]? = some (.pmap false w' k bad e st) := by
+    cases hn : ((mkNet fusion (pre ++ [.pmap w k bad e]) input).run picks).nodes[
+        ((mkNet fusion (pre ++ [.pmap w k bad e]) input).run picks).nodes.length - 2]? with
+    | none =>
+      have := List.getElem?_eq_none_iff.mp hn
+      omega
+    | some nd =>
+      have hk := hkget _ _ hn
+      rw [hkind, hlen] at hk
+      have e1 : (groupsOf fusion pre).length + 3 - 2 = (groupsOf fusion pre).length + 1 := by omega
+      rw [e1] at hk
+      simp only [List.getElem?_cons_succ, List.map_append, List.append_assoc] at hk
+      rw [List.getElem?_append_right (by simp)] at hk
+      simp only [List.length_map, Nat.sub_self, List.map_cons, List.map_nil, List.cons_append, List.nil_append,
+        List.getElem?_cons_zero, Option.some.injEq] at hk
+      have hk' : ukind nd = some (k, bad, e) := by rw [← hk]; rfl
+      obtain ⟨w', st, hnd⟩ := ukind_some hk'
+      exact ⟨w', st, by rw [hnd]⟩
+  have hok := hinv.sink_okU (by rw [hsem]; exact hP) s hs w' k bad e st (by omega) hlastU hu
+  rw [hsem, hlen] at hok
+  have hidx : (groupsOf fusion pre).length + 3 - 3 =
+      ((groupsOf fusion pre).map fun g => midF (nodeOfGroup g)).length := by simp
+  rw [hidx, hFs, idealAt_eq_semF] at hok
+  obtain ⟨r1, r2, r3⟩ := semF_groups (groupsOf fusion pre) (groupsOf_good fusion pre hcov) input
+  rw [groupsOf_flatten] at r1 r2 r3
+  obtain ⟨k1, k2, k3, k4, k5⟩ := hok
+  rw [r1] at k3 k4 k5
+  have hsemA : sem (pre ++ [.pmap w k bad e]) input =
+      ((parRun k bad e (sem pre input).1).1, (sem pre input).2 ++ (parRun k bad e (sem pre input).1).2.toList) := by
+    rw [sem_append]; simp [sem, stageSem_pmap]
+  refine ⟨k1, k2, k3, fun ha he => ?_, fun er her => ?_⟩
+  · obtain ⟨h1, h2, h3⟩ := k4 ha he
+    rw [hsemA]
+    exact ⟨h1, by simp [r2.mp h2, h3]⟩
+  · rw [hsemA]
+    rcases List.mem_append.mp (k5 er her) with h1 | h1
+    · exact List.mem_append_left _ (r3 er h1)
+    · exact List.mem_append_right _ h1
+
 /-! non-vacuity -/
 example : flowPipeline [.map 1, .filter 2 0, .scan, .batch 3, .flatten, .buffer 3] := by
   intro st hst; simp at hst; rcases hst with rfl | rfl | rfl | rfl | rfl | rfl <;> exact ⟨rfl, rfl⟩
 
 example : orderedPipeline [.map 1, .opmap 3 2 (some 7) "P1", .batch 2] = true ∧ Homog [.int 1, .int 7, .int 3] :=
   ⟨by decide, Or.inl (by intro v hv; simp at hv; rcases hv with rfl | rfl | rfl <;> rfl)⟩
+
+example : orderedPipeline [.map 1, .scan] = true ∧ Homog [.int 1, .int 7, .int 3] ∧
+    (sem ([.map 1, .scan] ++ [.pmap 3 2 (some 9) "P1"]) [.int 1, .int 7, .int 3]).1.length = 3 :=
+  ⟨by decide, Or.inl (by intro v hv; simp at hv; rcases hv with rfl | rfl | rfl <;> rfl), by decide⟩
 
 end GoaktVerif.C45
